@@ -251,6 +251,15 @@ func (w *world) handler(in *inst) daemon.WorkerFunc {
 			// the handler calls back into the daemon: it registers another worker from inside
 			w.bw(in.name+20, in.childOrd, "c")
 			in.nested.Store(true)
+		case "p":
+			// forced window from inside a handler: the nested registration is parked (verif hook) between its stopped
+			// check and the lock until the script releases it
+			hookArmed.Store(1)
+			w.parkWg.Add(1)
+			w.bw(in.name+20, in.childOrd, "c")
+			hookArmed.Store(0)
+			w.parkWg.Done()
+			in.nested.Store(true)
 		case "k":
 			// the handler shuts the daemon down from inside (asynchronously: ShutdownAndWait would wait for itself)
 			select {
@@ -668,9 +677,15 @@ func (w *world) exec(r *rec, op string) string {
 		case <-w.parked:
 			w.isParked.Store(true)
 		case <-returned:
-			// the call returned at its first stopped check (a handler has shut the daemon down already): nothing to park
-			hookArmed.Store(0)
-			ans = "notparked"
+			// the call returned without parking: at its first stopped check (a handler has shut the daemon down already),
+			// or because a concurrent `go bw` reached the armed yield point first and is the one that is parked
+			select {
+			case <-w.parked:
+				w.isParked.Store(true)
+			default:
+				hookArmed.Store(0)
+				ans = "notparked"
+			}
 		case <-time.After(w.guard()):
 			hookArmed.Store(0)
 			w.log("timeout")
@@ -678,7 +693,13 @@ func (w *world) exec(r *rec, op string) string {
 		}
 	case "release":
 		if !w.isParked.Swap(false) {
-			ans = "noparked" // nothing is parked (the armed call returned at its first stopped check)
+			// nothing is known to be parked (the armed call returned at its first stopped check); a call that took the
+			// armed hook at the last moment is released if it is there
+			select {
+			case w.release <- struct{}{}:
+			case <-time.After(20 * time.Millisecond):
+				ans = "noparked"
+			}
 
 			break
 		}
@@ -686,6 +707,15 @@ func (w *world) exec(r *rec, op string) string {
 		case w.release <- struct{}{}:
 		case <-time.After(w.guard()):
 			ans = "noparked"
+		}
+	case "waitparked":
+		// a handler of kind p parks its nested registration itself
+		select {
+		case <-w.parked:
+			w.isParked.Store(true)
+		case <-time.After(w.guard()):
+			w.log("timeout")
+			ans = "timeout"
 		}
 	case "waitpark":
 		done := make(chan struct{})
@@ -708,13 +738,9 @@ func (w *world) exec(r *rec, op string) string {
 			ans = "timeout"
 		}
 	case "waitstarted":
-		in := w.latest(atoi(1))
-		if in == nil {
-			ans = "noinst"
-
-			break
-		}
-		if !waitUntil(w.guard(), func() bool { return in.started.Load() }) {
+		// (the instance may still be on its way: a registration from inside a handler)
+		name := atoi(1)
+		if !waitUntil(w.guard(), func() bool { in := w.latest(name); return in != nil && in.started.Load() }) {
 			w.log("timeout")
 			ans = "timeout"
 		}
